@@ -33,7 +33,7 @@ QUICK_N = 40
 SCENARIO_TIMEOUT = 420
 PROBES = ["fresh_interpreter_ok", "schedules_compared", "permutations_compared", "protein_level", "sklearn_learner", "default_model", "best_ranked_rows_are_decoys",
           "order_sensitive_learner", "multi_file", "parquet", "subsampled", "subset_proteins_in_fasta",
-          "switches>0", "folds4_all_24_perms"]
+          "switches>0", "folds4_all_24_perms", "tied_scores_at_every_level", "confidence_rng_left_at_default"]
 RULE = (
     "Each scenario (seeded data + FASTA whose digest yields the table's peptides, learner in {OrderLDA, RecordingLDA, "
     "LinearSVC, PercolatorModel}, folds 2-4, seed, chunk knobs) is executed as a history: base run; repeat in the same "
@@ -84,6 +84,9 @@ def make_scenario(seed):
         "max_workers": 1, "confidence": True, "override": True,
         "conf": {"decoys": True, "dedup": True, "rollup": True},
     }
+    if rng.random() < 0.4:
+        cfg["quantise_scores"] = rng.choice([0, 1, 1])  # exact ties between peptides of a protein / target and decoy
+        cfg["conf_rng_default"] = rng.random() < 0.6
     kn = {}
     for name in ("CONFIDENCE_CHUNK_SIZE", "CHUNK_SIZE_READ_ALL_DATA", "CHUNK_SIZE_ROWS_PREDICTION", "MERGE_SORT_CHUNK_SIZE"):
         if rng.random() < 0.5:
@@ -216,6 +219,8 @@ def run_scenario(scn, workdir):
         out.update(status="uninformative", message=f"base run fails: {base.error}"[:160])
         return out
     probes["protein_level"] = int(any(k.endswith(".proteins") for k in d0))
+    probes["tied_scores_at_every_level"] = int(scn["cfg"].get("quantise_scores") is not None)
+    probes["confidence_rng_left_at_default"] = int(bool(scn["cfg"].get("conf_rng_default")))
     probes["subset_proteins_in_fasta"] = int(base.proteins is not None and any(", " in g for g in base.proteins.peptide_map.values()))
     # (a) repeat in the same process
     rep = execute(scn, workdir, "repeat")
